@@ -28,7 +28,9 @@ CONSTANT Src(_)
 
 \* ------------------------------------------------------------------ writers
 
-NewWriter(e, w) == [e |-> e, w |-> w, pend |-> <<>>, cnt |-> 0, dead |-> FALSE]
+\* room: how many more words the backend can take (-1: unbounded; a fixed slice: its length)
+NewWriterCap(e, w, cap) == [e |-> e, w |-> w, pend |-> <<>>, cnt |-> 0, dead |-> FALSE, room |-> cap]
+NewWriter(e, w) == NewWriterCap(e, w, -1)
 
 \* Appending bits A: the backend receives D, which must be a whole number of
 \* words and a prefix of everything pending; the rest stays pending.
@@ -38,7 +40,18 @@ Appends(wr, A, D, wr2) ==
     LET t == wr.pend \o A
     IN  /\ Len(D) % wr.w = 0
         /\ IsPrefixOf(D, t)
-        /\ wr2 = [wr EXCEPT !.pend = SubSeq(t, Len(D) + 1, Len(t)), !.cnt = @ + Len(A)]
+        /\ (wr.room < 0 \/ Len(D) <= wr.room * wr.w)
+        /\ wr2 = [wr EXCEPT !.pend = SubSeq(t, Len(D) + 1, Len(t)), !.cnt = @ + Len(A),
+                            !.room = IF @ < 0 THEN @ ELSE @ - Len(D) \div wr.w]
+
+\* A bounded backend (fixed slice) that cannot take all the whole words an operation
+\* completes: the words that fit are delivered, in order and unaltered, and the call fails;
+\* the writer is then dead.  (Write-side fault: nothing already delivered is lost or changed.)
+Overflows(wr, A) == wr.room >= 0 /\ ((Len(wr.pend) + Len(A)) \div wr.w) > wr.room
+FullStep(wr, A, res, D, wr2) ==
+    /\ res = "err"
+    /\ D = SubSeq(wr.pend \o A, 1, wr.room * wr.w)
+    /\ wr2 = [wr EXCEPT !.dead = TRUE]
 
 \* the library never keeps a full word pending
 Eager(wr) == Len(wr.pend) < wr.w
@@ -49,28 +62,34 @@ Dirty(v, n) == Len(v) > n                      \* v a natural
 WriteBitsStep(wr, v, n, checks, res, ret, D, wr2) ==
     IF checks /\ Dirty(v, n)
     THEN res = "panic"
+    ELSE IF Overflows(wr, Field(wr.e, v, n)) THEN FullStep(wr, Field(wr.e, v, n), res, D, wr2)
     ELSE res = "ok" /\ ret = n /\ Appends(wr, Field(wr.e, v, n), D, wr2) /\ Eager(wr2)
 
 WriteUnaryStep(wr, x, res, ret, D, wr2) ==
-    res = "ok" /\ ret = ToInt(x) + 1 /\ Appends(wr, EncUnary(x), D, wr2) /\ Eager(wr2)
+    IF Overflows(wr, EncUnary(x)) THEN FullStep(wr, EncUnary(x), res, D, wr2)
+    ELSE res = "ok" /\ ret = ToInt(x) + 1 /\ Appends(wr, EncUnary(x), D, wr2) /\ Eager(wr2)
 
 WriteCodeStep(wr, c, n, res, ret, D, wr2) ==
     LET cw == Enc(c, wr.e, n)
-    IN  res = "ok" /\ ret = Len(cw) /\ ret = CLen(c, n) /\ Appends(wr, cw, D, wr2) /\ Eager(wr2)
+    IN  IF Overflows(wr, cw) THEN FullStep(wr, cw, res, D, wr2)
+        ELSE res = "ok" /\ ret = Len(cw) /\ ret = CLen(c, n) /\ Appends(wr, cw, D, wr2) /\ Eager(wr2)
 
 \* std::io::Write view: the bytes, in order, each as an 8-bit field
 WriteBytesStep(wr, bs, res, ret, D, wr2) ==
-    res = "ok" /\ ret = Len(bs) /\ Appends(wr, StreamOfBytes(wr.e, bs), D, wr2) /\ Eager(wr2)
+    IF Overflows(wr, StreamOfBytes(wr.e, bs)) THEN FullStep(wr, StreamOfBytes(wr.e, bs), res, D, wr2)
+    ELSE res = "ok" /\ ret = Len(bs) /\ Appends(wr, StreamOfBytes(wr.e, bs), D, wr2) /\ Eager(wr2)
 
 \* flush / drop / into_inner: zero padding up to the next word boundary,
 \* everything delivered, the number of pending bits reported; padding is not
 \* "written through" the writer (the counter does not move); idempotent
 PadLen(wr) == (wr.w - (Len(wr.pend) % wr.w)) % wr.w
 FlushStep(wr, res, ret, D, wr2) ==
-    /\ res = "ok"
-    /\ ret = Len(wr.pend)
-    /\ D = wr.pend \o Zeros(PadLen(wr))
-    /\ wr2 = [wr EXCEPT !.pend = <<>>]
+    IF wr.room = 0 /\ wr.pend # <<>>
+    THEN res = "err" /\ D = <<>> /\ wr2 = [wr EXCEPT !.dead = TRUE]         \* the padded last word does not fit
+    ELSE /\ res = "ok"
+         /\ ret = Len(wr.pend)
+         /\ D = wr.pend \o Zeros(PadLen(wr))
+         /\ wr2 = [wr EXCEPT !.pend = <<>>, !.room = IF @ < 0 \/ wr.pend = <<>> THEN @ ELSE @ - 1]
 \* closing does not report a count
 CloseStep(wr, res, D, wr2) == \E ret \in {Len(wr.pend)} : FlushStep(wr, res, ret, D, wr2)
 
